@@ -903,6 +903,31 @@ fn pan(x: &mut Exec) -> Res {
     let mut cls_users = 0usize;
     let mut hs = vec![];
     let mut kinds = vec![];
+    // detached coroutines (handle dropped at once) that panic with a payload and are gone before the storm starts:
+    // their pooled stacks are the ones the storm's coroutines run on
+    let nd = x.rng.below(6) as usize;
+    let dgone = Arc::new(AtomicUsize::new(0));
+    for j in 0..nd {
+        let dg = dgone.clone();
+        let late = x.rng.chance(1, 2);
+        let h = go!(move || {
+            let _g = OnDrop(Some(move || {
+                dg.fetch_add(1, SeqCst);
+            }));
+            if late {
+                coroutine::sleep(Duration::from_micros(60));
+            }
+            std::panic::panic_any(format!("DETACHED{}", j));
+        });
+        drop(h);
+    }
+    {
+        let dg = &dgone;
+        x.wait_cond(&|| dg.load(SeqCst) == nd)?;
+    }
+    if nd > 0 {
+        std::thread::sleep(Duration::from_micros(300));
+    }
     for i in 0..n {
         let kind = x.rng.below(11);
         kinds.push(kind);
@@ -972,9 +997,11 @@ fn pan(x: &mut Exec) -> Res {
                 }
                 6 => {
                     // panic inside a select arm is re-raised in the poller (this coroutine)
+                    // the other arm can never complete (its sender stays alive and silent), so no timing decides
+                    let (_quiet_tx, quiet_rx) = may::sync::mpsc::channel::<u8>();
                     let tok = select!(
                         _ = { coroutine::sleep(Duration::from_micros(100)); if true { panic!("P{}", i) } } => {},
-                        _ = coroutine::sleep(Duration::from_millis(30)) => {}
+                        _ = quiet_rx.recv() => {}
                     );
                     return usize::MAX - 20 - tok; // not reached if the arm's panic is re-raised
                 }
@@ -997,7 +1024,7 @@ fn pan(x: &mut Exec) -> Res {
         });
         hs.push((i, kind, h));
     }
-    x.desc = format!("panic storm n={} kinds={:?} (0/1 panic, 2 panic under Mutex, 3 scope owner panics, 4 cancelled lock holder, 5 panic under RwLock write, 6 panic in select arm, 7/8/10 bystanders, 9 scoped child panics beside a running sibling) pool=4", n, kinds);
+    x.desc = format!("panic storm after {} detached panickers, n={} kinds={:?} (0/1 panic, 2 panic under Mutex, 3 scope owner panics, 4 cancelled lock holder, 5 panic under RwLock write, 6 panic in select arm, 7/8/10 bystanders, 9 scoped child panics beside a running sibling) pool=4", nd, n, kinds);
     std::thread::sleep(Duration::from_micros(x.rng.below(500)));
     for (_, kind, h) in hs.iter() {
         if *kind == 4 {
@@ -1024,7 +1051,7 @@ fn pan(x: &mut Exec) -> Res {
                     return viol(format!("coroutine {} kind {}: join() did not deliver its panic payload (cancel={})", i, kind, is_cancel_panic(&e)));
                 }
             }
-            (6, Ok(v)) => return viol(format!("coroutine {}: the panic of its select arm 0 (after a 100us sleep) was not re-raised; select! returned token {} (1 = the 30ms sleeper won)", i, (usize::MAX - 20).wrapping_sub(v))),
+            (6, Ok(v)) => return viol(format!("coroutine {}: the panic of its select arm 0 (after a 100us sleep) was not re-raised; select! returned token {} (1 = a recv on a channel nobody sends to)", i, (usize::MAX - 20).wrapping_sub(v))),
             (0..=3 | 5 | 9, Ok(_)) => return viol(format!("coroutine {} kind {}: panic not reported by join()", i, kind)),
             (4, Err(e)) => {
                 if !is_cancel_panic(&e) {
@@ -1133,30 +1160,31 @@ fn cls(x: &mut Exec) -> Res {
     let mut preds = vec![];
     let mut kinds = vec![];
     let mut users = 0usize;
+    // every predecessor first does something that may leave an event result behind (`residue`), then ends in one
+    // of four ways (`ending`): the two are independent, a stale result must not survive *any* ending
+    let mut busy = vec![];
     for i in 0..npred {
-        let kind = x.rng.below(7);
+        let residue = x.rng.below(5);
+        let ending = x.rng.below(4);
+        let kind = residue * 10 + ending;
         kinds.push(kind);
         users += 1;
+        let ready = Arc::new(AtomicBool::new(false));
+        let go_on = Arc::new(AtomicBool::new(false));
+        let (ready2, go2) = (ready.clone(), go_on.clone());
         let h = go!(move || {
             CLS_ID.with(|c| c.set(1000 + i));
             CLS_TR.with(|t| *t.borrow_mut() = Some(ClsVal(1000 + i)));
             CLS_INIT.with(|c| c.set(99));
-            match kind {
+            match residue {
                 0 => {}
-                1 => panic!("pred"),
-                2 => loop {
-                    coroutine::park();
-                },
-                3 => loop {
-                    coroutine::sleep(Duration::from_millis(20));
-                },
-                4 => {
-                    // ends right after a timed-out park (a Timeout result was passed in)
+                1 => {
+                    // a timed-out park (a Timeout result was passed in)
                     let b = Blocker::current();
                     let _ = b.park(Some(Duration::from_millis(1)));
                 }
-                5 => {
-                    // a select whose losing arm is cancelled at some point of its send
+                2 => {
+                    // a select whose losing arms are cancelled at some point of their send
                     let (_tx, rx) = mpsc::channel::<u8>();
                     let _ = select!(
                         _ = coroutine::sleep(Duration::from_micros(200)) => {},
@@ -1164,23 +1192,67 @@ fn cls(x: &mut Exec) -> Res {
                         _ = rx.recv() => {}
                     );
                 }
-                _ => {
+                3 => {
                     coroutine::park_timeout(Duration::from_millis(1));
                 }
+                _ => {
+                    // cancelled while running, then wait_io(): returns at once and takes the cancel with it,
+                    // the Canceled result it was handed stays unread
+                    use may::io::WaitIo;
+                    if let Ok((s1, _s2)) = may::os::unix::net::UnixStream::pair() {
+                        ready2.store(true, SeqCst);
+                        let t0 = Instant::now();
+                        while !go2.load(SeqCst) && t0.elapsed() < Duration::from_secs(2) {
+                            std::hint::spin_loop();
+                        }
+                        s1.wait_io();
+                    } else {
+                        ready2.store(true, SeqCst);
+                    }
+                }
+            }
+            match ending {
+                0 => {}
+                1 => panic!("pred"),
+                2 => loop {
+                    coroutine::park();
+                },
+                _ => loop {
+                    coroutine::sleep(Duration::from_millis(20));
+                },
             }
         });
-        preds.push((kind, h));
+        if residue == 4 {
+            busy.push((ready, go_on, preds.len()));
+        }
+        preds.push((ending, h));
+    }
+    for (ready, go_on, idx) in &busy {
+        let t0 = Instant::now();
+        while !ready.load(SeqCst) && t0.elapsed() < Duration::from_secs(2) {
+            std::thread::sleep(Duration::from_micros(50));
+        }
+        unsafe { preds[*idx].1.coroutine().cancel() };
+        go_on.store(true, SeqCst);
     }
     let at = x.rng.below(500);
     wait_fire(at);
-    for (k, h) in &preds {
-        if matches!(k, 2 | 3) {
-            unsafe { h.coroutine().cancel() };
-        }
-    }
+    // an ending that waits for its cancel gets cancelled again and again until it is gone (the first cancel of a
+    // residue-4 predecessor may be the one that wait_io takes away)
     {
         let p = &preds;
-        x.wait_cond(&|| p.iter().all(|(_, h)| h.is_done()))?;
+        let t = std::cell::Cell::new(Instant::now() - Duration::from_secs(1));
+        x.wait_cond(&|| {
+            if t.get().elapsed() > Duration::from_micros(500) {
+                t.set(Instant::now());
+                for (k, h) in p.iter() {
+                    if matches!(k, 2 | 3) && !h.is_done() {
+                        unsafe { h.coroutine().cancel() };
+                    }
+                }
+            }
+            p.iter().all(|(_, h)| h.is_done())
+        })?;
     }
     for (_, h) in preds {
         let _ = h.join();
@@ -1191,6 +1263,7 @@ fn cls(x: &mut Exec) -> Res {
     for i in 0..nsucc {
         let errs = errs.clone();
         users += 1;
+        let first_op = x.rng.below(3);
         x.spawn(&format!("succ{}", i), true, move |a| {
             let inits_before = CLS_INITS.load(SeqCst);
             let first = CLS_ID.with(|c| c.get());
@@ -1206,7 +1279,50 @@ fn cls(x: &mut Exec) -> Res {
             }
             CLS_ID.with(|c| c.set(i));
             CLS_TR.with(|t| *t.borrow_mut() = Some(ClsVal(i)));
-            // no pending cancel, no stale result
+            // no pending cancel, no stale result: the very first blocking call is the one that would meet a result
+            // left in the pooled stack. A wake-up that passes no result (a plain unpark, a mutex hand-over) is the
+            // one that exposes it, a time-out overwrites it.
+            match first_op {
+                1 => {
+                    let b0 = Blocker::current();
+                    let b1 = b0.clone();
+                    let helper = std::thread::spawn(move || {
+                        std::thread::sleep(Duration::from_micros(150));
+                        b1.unpark();
+                    });
+                    a.call("Blocker::park(unparked by a thread)", 0);
+                    let r0 = b0.park(None);
+                    a.ret("Blocker::park(unparked by a thread)", 0, 0);
+                    let _ = helper.join();
+                    if r0.is_err() {
+                        errs.lock().unwrap().push(format!("first park of a fresh coroutine, ended by a plain unpark, returned {:?} (stale result inherited)", r0));
+                    }
+                }
+                2 => {
+                    let m = Arc::new(Mutex::new(0u32));
+                    let m2 = m.clone();
+                    let held = Arc::new(AtomicBool::new(false));
+                    let held2 = held.clone();
+                    let helper = std::thread::spawn(move || {
+                        let _g = m2.lock().unwrap();
+                        held2.store(true, SeqCst);
+                        std::thread::sleep(Duration::from_micros(200));
+                    });
+                    while !held.load(SeqCst) {
+                        std::thread::yield_now();
+                    }
+                    a.call("Mutex::lock(contended)", 0);
+                    let r0 = std::panic::catch_unwind(std::panic::AssertUnwindSafe(|| {
+                        let _g = m.lock().unwrap();
+                    }));
+                    a.ret("Mutex::lock(contended)", 0, 0);
+                    let _ = helper.join();
+                    if r0.is_err() {
+                        errs.lock().unwrap().push("first contended Mutex::lock of a fresh coroutine raised a panic (stale Canceled result inherited)".into());
+                    }
+                }
+                _ => {}
+            }
             let b = Blocker::current();
             let t0 = Instant::now();
             a.call("Blocker::park(6ms)", 0);
@@ -1254,7 +1370,7 @@ fn cls(x: &mut Exec) -> Res {
             }
         });
     }
-    x.desc = format!("cls predecessors kinds={:?} (0 return,1 panic,2 cancel in park,3 cancel in sleep,4 timed-out Blocker,5 select,6 park_timeout) successors={} pool=2", kinds, nsucc);
+    x.desc = format!("cls predecessors residue*10+ending={:?} (residue 0 none,1 timed-out Blocker,2 select,3 park_timeout,4 cancel taken by wait_io; ending 0 return,1 panic,2 cancel in park,3 cancel in sleep) successors={} pool=2", kinds, nsucc);
     x.wait_all()?;
     x.finish()?;
     if let Some(e) = errs.lock().unwrap().first() {
